@@ -1509,6 +1509,10 @@ int ov_pcm_seek_page(OggVorbis_File *vf,ogg_int64_t pos){
           - CHUNKSIZE;
         if(bisect<begin+CHUNKSIZE)
           bisect=begin;
+        /* bogus granule positions can put the guess far outside the
+           link; don't walk back from there a chunk at a time */
+        if(bisect>end-CHUNKSIZE)
+          bisect=end-CHUNKSIZE;
       }
 
       result=_seek_helper(vf,bisect);
